@@ -2,7 +2,7 @@
 // backends, fields vs the independent MAP codec, consumed-byte accounting, edit histories) and
 // "map-damage" (C07, fault enumeration: every prefix / field x boundary value / wrap templates of valid
 // maps and saved games through memory, file and SimReader backends).
-#include "common.h"
+#include "backends.h"
 #include "../models/refmap.h"
 #include "../seams/damage.h"
 #include "../seams/simstream.h"
@@ -83,38 +83,6 @@ std::string compareMap(const Map& lib, const ref::RMap& m, bool tileGroups) {
 		if (a.tileWidth != b.w || a.tileHeight != b.h || a.mappingIndices != b.idx || a.name != b.name) return "tile group " + std::to_string(i);
 	}
 	return "";
-}
-
-struct ReaderBox {
-	std::unique_ptr<char[]> block;
-	std::unique_ptr<Stream::BidirectionalReader> rd;
-	SimReader* sim = nullptr;
-	uint64_t start = 0; // position of byte 0 of the content (always 0 from the reader's point of view)
-};
-
-// backend: mem | file | fileslice | sim
-ReaderBox openBackend(const std::string& backend, const std::vector<uint8_t>& bytes, const std::string& tag, uint64_t padSeed) {
-	ReaderBox b;
-	if (backend == "mem") {
-		b.block.reset(new char[bytes.size()]);
-		memcpy(b.block.get(), bytes.data(), bytes.size());
-		b.rd = std::make_unique<Stream::MemoryReader>(b.block.get(), bytes.size());
-	} else if (backend == "sim") {
-		auto s = std::make_unique<SimReader>(bytes);
-		b.sim = s.get();
-		b.rd = std::move(s);
-	} else if (backend == "file") {
-		disk::put(tag + ".bin", bytes);
-		b.rd = std::make_unique<Stream::FileReader>(tag + ".bin");
-	} else if (backend == "fileslice") {
-		std::vector<uint8_t> whole = prngBytes(padSeed, 37);
-		whole.insert(whole.end(), bytes.begin(), bytes.end());
-		auto tail = prngBytes(padSeed ^ 3, 19);
-		whole.insert(whole.end(), tail.begin(), tail.end());
-		disk::put(tag + ".bin", whole);
-		b.rd = std::make_unique<Stream::FileSliceReader>(Stream::FileReader(tag + ".bin").Slice(37, bytes.size()));
-	} else throw std::runtime_error("bad backend " + backend);
-	return b;
 }
 
 struct MapStream : Family {
